@@ -5,6 +5,8 @@
 package vh
 
 import (
+	"crypto/ed25519"
+	"crypto/sha256"
 	"encoding/json"
 	"fmt"
 	"math/big"
@@ -540,3 +542,27 @@ func forEach(v reflect.Value, want reflect.Type, f reflect.Value) {
 		v.Set(tmp)
 	}
 }
+
+func SigOK(pk [32]byte, msg [32]byte, sig [64]byte) bool {
+	return ed25519.Verify(pk[:], msg[:], sig[:])
+}
+
+// Sign: natively a signature can only be produced for keys the replay knows the
+// seed of; harnesses that need real signatures derive pk from a seed with KeyFromSeed.
+var seeds = map[[32]byte]ed25519.PrivateKey{}
+
+func KeyFromSeed(seed [32]byte) (pk [32]byte) {
+	priv := ed25519.NewKeyFromSeed(seed[:])
+	copy(pk[:], priv[32:])
+	seeds[pk] = priv
+	return
+}
+
+func Sign(pk [32]byte, msg [32]byte) (sig [64]byte) {
+	if priv, ok := seeds[pk]; ok {
+		copy(sig[:], ed25519.Sign(priv, msg[:]))
+	}
+	return
+}
+
+func Sha256(pre [32]byte) [32]byte { return sha256.Sum256(pre[:]) }
